@@ -98,22 +98,29 @@ impl FromStr for MatchResult {
 
     fn from_str(s: &str) -> Result<Self, Self::Err> {
         fn find_next_field(s: &str, start_pos: usize) -> Result<(&str, usize), PriceLevelError> {
-            let mut pos = start_pos;
-
-            while pos < s.len() {
-                if s[pos..].starts_with(';') {
-                    let value = &s[start_pos..pos];
-                    return Ok((value, pos + 1));
+            // Search by character, not by byte: a field value may hold multi-byte characters
+            match s[start_pos..].find(';') {
+                Some(idx) => Ok((&s[start_pos..start_pos + idx], start_pos + idx + 1)),
+                None => Ok((&s[start_pos..], s.len())),
+            }
+        }
+        // Byte index of the ']' closing a bracket opened just before `start` (depth 1),
+        // scanning by character so that multi-byte characters cannot split a slice
+        fn find_closing_bracket(s: &str, start: usize) -> Option<usize> {
+            let mut bracket_depth = 1;
+            for (offset, c) in s[start..].char_indices() {
+                match c {
+                    ']' => {
+                        bracket_depth -= 1;
+                        if bracket_depth == 0 {
+                            return Some(start + offset);
+                        }
+                    }
+                    '[' => bracket_depth += 1,
+                    _ => {}
                 }
-                pos += 1;
             }
-
-            if pos == s.len() {
-                let value = &s[start_pos..pos];
-                return Ok((value, pos));
-            }
-
-            Err(PriceLevelError::InvalidFormat)
+            None
         }
         if !s.starts_with("MatchResult:") {
             return Err(PriceLevelError::InvalidFormat);
@@ -156,27 +163,10 @@ impl FromStr for MatchResult {
                         return Err(PriceLevelError::InvalidFormat);
                     }
 
-                    let mut bracket_depth = 1;
-                    let mut i = pos + "Transactions:[".len();
-
-                    while i < s.len() && bracket_depth > 0 {
-                        if s[i..].starts_with(']') {
-                            bracket_depth -= 1;
-                            if bracket_depth == 0 {
-                                break;
-                            }
-                            i += 1;
-                        } else if s[i..].starts_with('[') {
-                            bracket_depth += 1;
-                            i += 1;
-                        } else {
-                            i += 1;
-                        }
-                    }
-
-                    if bracket_depth > 0 {
-                        return Err(PriceLevelError::InvalidFormat);
-                    }
+                    let i = match find_closing_bracket(s, pos + "Transactions:[".len()) {
+                        Some(i) => i,
+                        None => return Err(PriceLevelError::InvalidFormat),
+                    };
 
                     transactions_str = Some(&s[pos..=i]);
                     pos = i + 1;
@@ -191,27 +181,10 @@ impl FromStr for MatchResult {
                         return Err(PriceLevelError::InvalidFormat);
                     }
 
-                    let mut bracket_depth = 1;
-                    let mut i = pos + 1;
-
-                    while i < s.len() && bracket_depth > 0 {
-                        if s[i..].starts_with(']') {
-                            bracket_depth -= 1;
-                            if bracket_depth == 0 {
-                                break;
-                            }
-                            i += 1;
-                        } else if s[i..].starts_with('[') {
-                            bracket_depth += 1;
-                            i += 1;
-                        } else {
-                            i += 1;
-                        }
-                    }
-
-                    if bracket_depth > 0 {
-                        return Err(PriceLevelError::InvalidFormat);
-                    }
+                    let i = match find_closing_bracket(s, pos + 1) {
+                        Some(i) => i,
+                        None => return Err(PriceLevelError::InvalidFormat),
+                    };
 
                     filled_order_ids_str = Some(&s[pos..=i]);
 
